@@ -91,6 +91,7 @@ func runC01(ctx *h.Ctx) int {
 		k.Sample("random-script", map[string]interface{}{"source": pr.Src})
 	})
 	runC01Enumerated(ctx)
+	rejectGuard(ctx, 0.05)
 	return ctx.Finish(
 		"random scripts over command/label/goto/end/return/if-elif-else/while/condition-less while/do-while/break/continue/plain switch (depth<=5), compiled with optimize on and off; each script run on the assembly VM and the reference interpreter under N hash-derived game states (state = function of epoch,kind,name); non-trivial = accepted script whose body has at least one construct; distinct = distinct structural signature (names abstracted)",
 		ctx.N(500, 5000),
